@@ -271,7 +271,7 @@ def exact_settings():
             (["phantom_obstacle"], "draw_signals", False)]
 
 
-def exact_case(name, window, draw_ids, res, tmpdir):
+def exact_case(name, window, draw_ids, res, tmpdir, via_file=False):
     import collections
     case = {"k": "exact", "scenario": name, "window": list(window), "draw_ids": draw_ids}
     res.evals += 1; res.transitions += 1; res.nontrivial += 1
@@ -282,6 +282,13 @@ def exact_case(name, window, draw_ids, res, tmpdir):
     settings.append((["lanelet_network"], "draw_ids", sel))
     try:
         p = set_params(settings)
+        if via_file:
+            # the same parameters after a round trip through a parameter file (save / load): they select the same things
+            from commonroad.visualization.draw_params import MPDrawParams
+            fn_ = os.path.join(tmpdir, f"params_{os.getpid()}.yaml")
+            p.save(fn_)
+            p = MPDrawParams.load(fn_)
+            case["params"] = "saved-and-loaded"
         patches, colls = draw_and_render(sc, None, p)
     except Exception as e:
         res.violation(f"C19|exact-configuration|raises:{type(e).__name__}", f"{case}: {e!r}", case)
@@ -314,6 +321,40 @@ def exact_case(name, window, draw_ids, res, tmpdir):
     if any(f in unsel for f in fills):
         res.violation(f"C19|draw_lanelet_network|draw_ids:{draw_ids}|lanelet-filter-ignored", f"{case}: unselected lanelets are drawn", case)
     res.outcomes[f"exact:{wclass}"] += 1
+
+
+def two_renderers_case(name, w1, w2, res, tmpdir):
+    """two renderers (two axes of one figure), the scenario drawn into the first with window w1 and into the second with window w2 before either
+    is rendered: each renderer holds exactly the shapes of its own window"""
+    import collections
+    plt = mpl_setup()
+    from commonroad.visualization.mp_renderer import MPRenderer
+    global _FIG
+    if _FIG is None:
+        _FIG = plt.figure(figsize=(4, 3))
+    case = {"k": "two-renderers", "scenario": name, "w1": list(w1), "w2": list(w2)}
+    res.evals += 1; res.transitions += 2; res.nontrivial += 1
+    sc, pps = build(name, tmpdir)
+    _FIG.clf()
+    try:
+        r1, r2 = MPRenderer(ax=_FIG.add_subplot(121)), MPRenderer(ax=_FIG.add_subplot(122))
+        sc.draw(r1, set_params(exact_settings() + [([], "time_begin", w1[0]), ([], "time_end", w1[1])]))
+        sc.draw(r2, set_params(exact_settings() + [([], "time_begin", w2[0]), ([], "time_end", w2[1])]))
+        got = [collections.Counter(patch_key(x) for x in r.obstacle_patches) for r in (r1, r2)]
+        r1.render(); r2.render()
+    except Exception as e:
+        res.violation(f"C19|two-renderers|raises:{type(e).__name__}", f"{case}: {e!r}", case)
+        return
+    finally:
+        _FIG.clf()
+    for which, g, w in (("first", got[0], w1), ("second", got[1], w2)):
+        req, opt = expected_patches(sc, w)
+        req, opt = collections.Counter(req), collections.Counter(opt)
+        if req - g:
+            res.violation(f"C19|two-renderers|{which}-renderer:missing-patch", f"{case}: {sum((req - g).values())} occupancies of its window are not in the {which} renderer", case)
+        if g - req - opt:
+            res.violation(f"C19|two-renderers|{which}-renderer:extra-patch", f"{case}: {sum((g - req - opt).values())} shapes in the {which} renderer that the model does not report for its window", case)
+    res.outcomes["two-renderers"] += 1
 
 
 def frames_case(name, w1, w2, keep, res, tmpdir):
@@ -542,6 +583,9 @@ def run_unit(unit, tier):
             for w in WINDOWS:
                 for ids in ("None", "[]", "[one]", "[all]"):
                     exact_case(unit["scenario"], w, ids, res, d)
+            for ids in ("None", "[]", "[one]", "[all]"):
+                exact_case(unit["scenario"], WINDOWS[2], ids, res, d, via_file=True)
+            two_renderers_case(unit["scenario"], WINDOWS[1], WINDOWS[4], res, d)
             for w1, w2 in ((WINDOWS[1], WINDOWS[2]), (WINDOWS[2], WINDOWS[1]), (WINDOWS[1], WINDOWS[5]), (WINDOWS[3], WINDOWS[4])):
                 for keep in (False, True):
                     frames_case(unit["scenario"], w1, w2, keep, res, d)
@@ -563,7 +607,9 @@ def replay(case):
     if k == "total":
         total_case(case["scenario"], [(a, b, c) for a, b, c in case["settings"]], tuple(case["window"]), res, d, "replay")
     elif k == "exact":
-        exact_case(case["scenario"], tuple(case["window"]), case["draw_ids"], res, d)
+        exact_case(case["scenario"], tuple(case["window"]), case["draw_ids"], res, d, via_file=case.get("params") == "saved-and-loaded")
+    elif k == "two-renderers":
+        two_renderers_case(case["scenario"], tuple(case["w1"]), tuple(case["w2"]), res, d)
     elif k == "frames":
         frames_case(case["scenario"], tuple(case["w1"]), tuple(case["w2"]), case["keep_static_artists"], res, d)
     elif k == "propagation":
